@@ -399,6 +399,9 @@ func c08Run(ccfg, scfg *gmtls.Config, mitm mitmFunc, evil ...c08Evil) (res pairR
 	if len(evil) > 0 && evil[0].clientFinXor != nil {
 		chs = func() error { return client.VerifEvilClientHandshake(evil[0].clientFinXor) }
 	}
+	if len(evil) > 0 && evil[0].client != nil {
+		chs = func() error { return client.VerifEvilClientHandshakeK(*evil[0].client) }
+	}
 	start(client, chs, &cr, cd)
 	start(server, shs, &sr, sd)
 	teardown := func() { cEnd.Close(); sEnd.Close(); mC.Close(); mS.Close() }
@@ -454,6 +457,7 @@ func c08Run(ccfg, scfg *gmtls.Config, mitm mitmFunc, evil ...c08Evil) (res pairR
 type c08Evil struct {
 	server       *gmtls.VerifEvilServer
 	clientFinXor []byte
+	client       *gmtls.VerifEvilClient
 }
 
 // c08HookSigner is a scripted private key: the malicious end decides what its "signature" is
@@ -477,6 +481,7 @@ type c08Setup struct {
 	ccfg, scfg   *gmtls.Config
 	sentClient   [][]byte // the chain the client presents when asked
 	serverCerts  [][]byte
+	pinned       [][]byte // s-pinned-…: the end-entity certificates the client trusts instead of a CA
 }
 
 func c08FlipAt(b []byte, pos int, mask byte) []byte {
@@ -678,6 +683,36 @@ func c08EvalAuth(args []string) string {
 		sc(x.ekuSign, m.enc)
 	case "s-wrongeku-enc":
 		sc(m.sign, x.ekuEnc)
+	// pinning: the client trusts exactly the end-entity certificates (no CA). A trust anchor that is presented as
+	// the peer's own certificate still has to be within its validity period, carry the name and the usage
+	case "s-pinned-ok", "s-pinned-expired-sign", "s-pinned-expired-enc", "s-pinned-notyet-sign", "s-pinned-wrongname", "s-pinned-wrongeku-sign", "s-pinned-other":
+		a, b := m.sign, m.enc
+		switch attack {
+		case "s-pinned-expired-sign":
+			a = x.expSign
+		case "s-pinned-expired-enc":
+			b = x.expEnc
+		case "s-pinned-notyet-sign":
+			a = x.nySign
+		case "s-pinned-wrongname":
+			a, b = x.nameSign, x.nameEnc
+		case "s-pinned-wrongeku-sign":
+			a = x.ekuSign
+		}
+		pool := x509.NewCertPool()
+		for _, c := range []gmtls.Certificate{a, b} {
+			pc, err := x509.ParseCertificate(c.Certificate[0])
+			if err != nil {
+				return "ORACLE-FAIL:harness-parse"
+			}
+			pool.AddCert(pc)
+			st.pinned = append(st.pinned, pc.Raw)
+		}
+		st.ccfg.RootCAs = pool
+		if attack == "s-pinned-other" { // genuine certificates of the same CA and names, but not the pinned ones
+			a, b = x.sign2, x.enc2
+		}
+		sc(a, b)
 
 	// scripted peers that keep a consistent transcript: a server that never sends ServerKeyExchange, a server /
 	// client whose Finished is right in its first byte(s) only, or wrong in its last bit only
@@ -1178,7 +1213,22 @@ func c08ClientAuthenticated(st *c08Setup, res *pairResult, m *gmPKI) string {
 		return ""
 	}
 	vc := res.c.state.VerifiedChains
-	if len(vc) == 0 || len(vc[0]) == 0 || !vc[0][len(vc[0])-1].Equal(m.ca) {
+	if len(vc) == 0 || len(vc[0]) == 0 {
+		return "no-verified-chain"
+	}
+	// the chain must end in a trust anchor of the client: the CA, or (pinning: the anchors are the end-entity
+	// certificates themselves) a certificate the client pinned
+	anchor := vc[0][len(vc[0])-1]
+	trusted := anchor.Equal(m.ca)
+	if st.pinned != nil {
+		trusted = false
+		for _, p := range st.pinned {
+			if bytes.Equal(p, anchor.Raw) {
+				trusted = true
+			}
+		}
+	}
+	if !trusted {
 		return "no-verified-chain"
 	}
 	if len(res.c.state.PeerCertificates) < 2 {
@@ -1192,6 +1242,7 @@ func c08ClientAuthenticated(st *c08Setup, res *pairResult, m *gmPKI) string {
 var c08ServerAttacks = []string{"s-signkey-wrong", "s-enckey-wrong", "s-untrusted", "s-untrusted-withca", "s-untrusted-sign", "s-untrusted-enc",
 	"s-expired-sign", "s-expired-enc", "s-notyet-sign", "s-notyet-enc", "s-wildcard-ok", "s-wildcard-deep", "s-ip-ok", "s-ip-other", "s-ip-dnsonly", "s-ip6-ok", "s-ip6-dnsonly", "s-ip6-sign-only", "s-wrongname-sign", "s-wrongname-enc",
 	"s-rsa-sign", "s-rsa-enc", "s-p256-sign", "s-p256-enc", "s-swapped", "s-noku-sign", "s-noku-enc", "s-kusign-enc", "s-kuenc-sign", "s-dual", "s-wrongeku-sign", "s-wrongeku-enc",
+	"s-pinned-ok", "s-pinned-expired-sign", "s-pinned-expired-enc", "s-pinned-notyet-sign", "s-pinned-wrongname", "s-pinned-wrongeku-sign", "s-pinned-other",
 	"ske-otherrandoms", "ske-otherclientrandom", "ske-otherserverrandom", "ske-swaprandoms", "ske-othercert", "ske-nolen",
 	"ske-by-enckey", "ske-by-otherkey", "ske-empty", "ske-replay", "cke-forge",
 	"s-ske-omitted", "s-fin-firstbyte", "s-fin-first11", "s-fin-lastbit", "c-fin-firstbyte", "c-fin-first11", "c-fin-lastbit"}
